@@ -46,6 +46,7 @@ DESCRIPTION = {
         "the model is partial by design: RENAME outside the determined zone (single/multi pair, source present, wired, no self-loop, not tagged source-only/target-only, fresh target name) only requires the old name to be gone, and the rest of that history is checked for weak invariants only",
         "DROP of a table that was never read and never wired may or may not remove it (the statement says 'only if')",
         "an exception in the loose zone is not judged here (C10 is not claimed by this family)",
+        "crash-and-retry world: the first evaluation is interrupted by an exception out of a statement-boundary tap (once or twice); the same runner asked again must give the uninterrupted answer",
         "this is seeded sampling of histories, not the exhaustive enumeration the quantifier describes (that would be model checking)",
     ],
     "required_probes": {
